@@ -22,9 +22,29 @@ def const_bits(v, w):
 
 
 class BitEval:
-    def __init__(self, prog, body):
+    def __init__(self, prog, body, upper_bound=None):
+        """upper_bound(description) -> int | None: a proven upper bound of an opaque unsigned value (its higher bits are then 0)."""
         self.prog, self.b = prog, body
         self.memo = {}
+        self.upper_bound = upper_bound
+        self.keys = {}              # rendered key -> description tree of the opaque value
+
+    def opaque(self, d, w):
+        key = core.short(str(d))
+        self.keys[key] = d
+        bits_ = [("in", key, 0, i) for i in range(w)]
+        ub = self.upper_bound(d) if self.upper_bound else None
+        if isinstance(ub, int) and ub >= 0:
+            n = max(ub.bit_length(), 0)
+            bits_ = [bits_[i] if i < n else 0 for i in range(w)]
+        return bits_
+
+    def enum_bits(self, ty):
+        """bit length of the largest discriminant of a fieldless enum type known to the program, else None."""
+        e = self.prog.enums.get((ty or "").strip()) if hasattr(self.prog, "enums") else None
+        if e and all(isinstance(v, dict) and isinstance(v.get("discr"), int) and not v.get("fields") for v in e["variants"]):
+            return max(v["discr"] for v in e["variants"]).bit_length()
+        return None
 
     def _const_int(self, o):
         d = core.describe(self.prog, self.b, o)
@@ -38,6 +58,11 @@ class BitEval:
             ww = width_of(o.get("ty")) or w
             if isinstance(v, int) and not isinstance(v, bool) and ww:
                 return const_bits(v, ww)
+            if isinstance(v, bool) and ww:
+                return const_bits(int(v), ww)
+            cv = self._const_int(o)          # named constants
+            if cv is not None and ww and cv >= 0:
+                return const_bits(cv, ww)
             return None
         return self.place(o["pl"])
 
@@ -65,6 +90,20 @@ class BitEval:
             key = self.input_key(l)
             w = 8
             return [("in", key, iv, bit) for bit in range(w)]
+        # a field (path) of a structure: an opaque value named by its description
+        fl = [e for e in p if e[0] == "f"]
+        if fl and all(e[0] in ("f", "d", "i", "ci", "dc") for e in p):
+            ty = fl[-1][2] if len(fl[-1]) > 2 else None
+            if idx and p[-1][0] in ("i", "ci"):
+                m = re.match(r"^\[(.+); \d+\]$", (ty or "").strip())
+                ty = m.group(1) if m else None
+            w = width_of(ty)
+            eb = self.enum_bits(ty)
+            d = core._describe_place(self.prog, self.b, pl, 0, set())
+            if w:
+                return self.opaque(d, w)
+            if eb is not None:
+                return ("enum", self.opaque(d, max(eb, 1)))
         return None
 
     def input_key(self, l):
@@ -94,10 +133,26 @@ class BitEval:
                     v = self.operand(t["args"][0], width_of(tys[0]))
                     if v is not None:
                         out = (v + [0] * w)[:w]
+        if out is None and w and len(ds) == 2 and all(d[2] == "assign" and not d[3]["pl"]["p"] and d[3]["rv"]["k"] == "use" and d[3]["rv"]["o"].get("k") == "const" and
+                                                       isinstance(d[3]["rv"]["o"].get("v"), int) and not isinstance(d[3]["rv"]["o"].get("v"), bool) for d in ds):
+            # `if b { C1 } else { C0 }`: a bit that differs between the constants is b (when it is set in C1 only)
+            sel = None
+            for s_, lab, dd, info in core.guards_dominating(self.prog, self.b, ds[0][0]):
+                if lab in ("true", "false") and any(s2 == s_ and l2 in ("true", "false") and l2 != lab for s2, l2, d2, i2 in core.guards_dominating(self.prog, self.b, ds[1][0])):
+                    sel = (s_, lab)
+            if sel is not None:
+                cond_local = core.op_local(self.b.term(sel[0])["discr"])
+                cb = self.local(cond_local) if cond_local is not None else None
+                c_true = ds[0][3]["rv"]["o"]["v"] if sel[1] == "true" else ds[1][3]["rv"]["o"]["v"]
+                c_false = ds[1][3]["rv"]["o"]["v"] if sel[1] == "true" else ds[0][3]["rv"]["o"]["v"]
+                if cb is not None and cb[0] not in (0, 1, None):
+                    out = []
+                    for i in range(w):
+                        t_, f_ = (c_true >> i) & 1, (c_false >> i) & 1
+                        out.append(t_ if t_ == f_ else (cb[0] if (t_, f_) == (1, 0) else None))
         if out is None and w:
             # an opaque value: every bit is "bit i of that value" (named by its description, so two uses of one value agree)
-            key = self.input_key(l)
-            out = [("in", key, 0, i) for i in range(w)]
+            out = self.opaque(core.describe(self.prog, self.b, l), w)
         self.memo[l] = out
         return out
 
@@ -107,12 +162,23 @@ class BitEval:
             return self.operand(rv["o"], w)
         if k == "cast":
             v = self.operand(rv["o"], w)
+            if isinstance(v, tuple) and v and v[0] == "enum":
+                return (v[1] + [0] * w)[:w]        # discriminant of a fieldless enum: only its low bits can be set
             if v is None:
                 return None
             src_ty = self.b.local_ty(rv["o"]["pl"]["l"]) if rv["o"].get("pl") and not rv["o"]["pl"]["p"] else rv["o"].get("ty")
             if src_ty and src_ty.strip().startswith("i") and src_ty.strip() != "isize" and len(v) < w:
                 return None     # sign extension of a possibly negative value: not modelled
             return (v + [0] * w)[:w]
+        if k == "discr":
+            pl = rv["pl"]
+            fl = [e for e in pl["p"] if e[0] == "f"]
+            ty = (fl[-1][2] if fl and len(fl[-1]) > 2 else self.b.local_ty(pl["l"]))
+            eb = self.enum_bits((ty or "").lstrip("&").strip())
+            if eb is not None:
+                d = core._describe_place(self.prog, self.b, pl, 0, set())
+                return (self.opaque(d, max(eb, 1)) + [0] * w)[:w]
+            return None
         if k == "bin":
             op = rv["op"]
             if op in ("Shl", "Shr"):
